@@ -5,7 +5,7 @@ CHECK = Check(
     "C06",
     streams=[emit_stream("c06", drv="c06"),
              # eight units of this check's own (Gen/GenC06b.v): maps whose values are structs held BY VALUE that own
-             # pointers, slices and maps (kept out of the shared units: C03's finding nested_in_map_entry, fixed since by 2f8b339)
+             # pointers, slices and maps (kept out of the shared units: C03's finding nested_in_map_entry, fixed since by e955906)
              emit_stream("c06b", drv="c06b", unitsdrv="c06bunits")],
     rule=("generated inspectors of the model's emit units (quick: every third supported unit of the representative shape set + "
           "multi-field structs; thorough: every supported depth<=2 unit) x value variants (pointers nil/set, collections "
